@@ -41,7 +41,8 @@ def gen_case(rng, tier):
     if rng.random() < 0.3:
         prof["w_call"] = max(prof["w_call"], 2)
     prof["prethread"] = rng.choice([0, 0, 0.3, 0.7])  # pre-existing partial threading
-    prof["stale_links"] = rng.choice([0, 0, 0.5])  # ... some of it stale (something was inserted after the IR had been threaded)
+    prof["stale_links"] = rng.choice([0, 0, 0.5])
+    prof["while_loops"] = rng.choice([0, 0, 0.4])  # counted loops written as scf.while  # ... some of it stale (something was inserted after the IR had been threaded)
     ast = G.AccfgGen(rng, prof).program()
     return {"ast": ast, "envs": gen_envs(rng, K_ENVS[tier]), "pipeline": PIPELINE}
 
